@@ -100,7 +100,7 @@ theorem encode_eq (parts : List Part) (b pre epi : Bytes) (fin : Bool) :
   simp only [List.append_assoc] at this ⊢
   rw [this]
 
-/-- the header-size cap `maxHdr` admits a block of `n` bytes -/
+/-- the header-size cap `maxHdr` allows a block of `n` bytes -/
 def fits (maxHdr : Int) (n : Nat) : Prop := maxHdr = -1 ∨ n ≤ maxHdr.toNat
 instance (m : Int) (n : Nat) : Decidable (fits m n) := by unfold fits; exact inferInstance
 
@@ -714,5 +714,180 @@ theorem invalid_is_parse_error_only (body b : Bytes) (lim : Limits) :
   | finished => left; exact ⟨rfl, rfl⟩
   | fuel => exact absurd rfl ht
   | error e => right; exact ⟨e, by cases e <;> simp, rfl, rfl⟩
+
+
+/-! ### the header names as byte lists (for `decide`d examples) -/
+
+theorem toList_loop (bs : ByteArray) : ∀ (m i : Nat) (r : List UInt8), bs.size - i = m →
+    ByteArray.toList.loop bs i r = r.reverse ++ bs.data.toList.drop i := by
+  have hsz : bs.data.toList.length = bs.size := by rw [Array.length_toList]; rfl
+  intro m
+  induction m with
+  | zero =>
+    intro i r h
+    rw [ByteArray.toList.loop]
+    have : ¬ i < bs.size := by omega
+    simp only [this, if_false]
+    rw [List.drop_of_length_le (by omega), List.append_nil]
+  | succ m ih =>
+    intro i r h
+    rw [ByteArray.toList.loop]
+    have hi : i < bs.size := by omega
+    simp only [hi, if_true]
+    rw [ih (i + 1) _ (by omega)]
+    have hl : i < bs.data.toList.length := by omega
+    rw [List.drop_eq_getElem_cons hl]
+    simp [ByteArray.get!, getElem!_pos, hi]
+
+theorem toByteArray_toList (l : List UInt8) : l.toByteArray.toList = l := by
+  unfold ByteArray.toList
+  rw [toList_loop _ _ 0 [] rfl]
+  simp
+
+theorem binary_eq : Mp.binary = [98, 105, 110, 97, 114, 121] := by
+  show (String.ofList ['b','i','n','a','r','y']).toByteArray.toList = _
+  simp [String.ofList, List.utf8Encode, String.utf8EncodeChar, toByteArray_toList]
+
+theorem hCTE_eq : Mp.hCTE = [99, 111, 110, 116, 101, 110, 116, 45, 116, 114, 97, 110, 115, 102, 101, 114, 45, 101, 110, 99, 111, 100, 105, 110, 103] := by
+  show (String.ofList "content-transfer-encoding".toList).toByteArray.toList = _
+  simp [String.ofList, List.utf8Encode, String.utf8EncodeChar, toByteArray_toList]
+
+theorem hContentType_eq : Mp.hContentType = [99, 111, 110, 116, 101, 110, 116, 45, 116, 121, 112, 101] := by
+  show (String.ofList "content-type".toList).toByteArray.toList = _
+  simp [String.ofList, List.utf8Encode, String.utf8EncodeChar, toByteArray_toList]
+
+theorem hContentDisposition_eq : Mp.hContentDisposition = [99, 111, 110, 116, 101, 110, 116, 45, 100, 105, 115, 112, 111, 115, 105, 116, 105, 111, 110] := by
+  show (String.ofList "content-disposition".toList).toByteArray.toList = _
+  simp [String.ofList, List.utf8Encode, String.utf8EncodeChar, toByteArray_toList]
+
+/-- `Mp.parseHeaders` with the header names spelled out as byte lists (`"…".toUTF8` does not reduce in the kernel, so `decide`
+    cannot evaluate `Mp.parseHeaders` on a line that has a name; this copy is proved equal and used for the decided examples) -/
+def parseHeadersL : List Bytes → List (Bytes × Bytes) → Except Mp.Err (List (Bytes × Bytes))
+  | [], acc => .ok acc
+  | line :: rest, acc =>
+    let (name, found, value) := Mp.partition line Mp.colonSp
+    if found then
+      let name := Mp.lowerB name
+      if name == [99, 111, 110, 116, 101, 110, 116, 45, 116, 114, 97, 110, 115, 102, 101, 114, 45, 101, 110, 99, 111, 100, 105, 110, 103]
+          && value != [98, 105, 110, 97, 114, 121] then .error .cte
+      else if name == [99, 111, 110, 116, 101, 110, 116, 45, 116, 121, 112, 101]
+          || name == [99, 111, 110, 116, 101, 110, 116, 45, 100, 105, 115, 112, 111, 115, 105, 116, 105, 111, 110]
+          || name == [99, 111, 110, 116, 101, 110, 116, 45, 116, 114, 97, 110, 115, 102, 101, 114, 45, 101, 110, 99, 111, 100, 105, 110, 103] then
+        parseHeadersL rest (Mp.setKey acc name value)
+      else parseHeadersL rest acc
+    else parseHeadersL rest acc
+
+theorem parseHeaders_eq_L : ∀ (ls : List Bytes) (acc : List (Bytes × Bytes)), parseHeaders ls acc = parseHeadersL ls acc
+  | [], acc => rfl
+  | line :: rest, acc => by
+    unfold parseHeaders parseHeadersL
+    simp only [hCTE_eq, binary_eq, hContentType_eq, hContentDisposition_eq]
+    split
+    · split
+      · rfl
+      · split
+        · exact parseHeaders_eq_L rest _
+        · exact parseHeaders_eq_L rest _
+    · exact parseHeaders_eq_L rest _
+
+def okHeadersL (p : Part) : Bool := match parseHeadersL p.lines [] with | .ok _ => true | .error _ => false
+theorem okHeaders_eq_L (p : Part) : okHeaders p = okHeadersL p := by
+  unfold okHeaders okHeadersL headersOf; rw [parseHeaders_eq_L]; cases parseHeadersL p.lines [] <;> rfl
+/-- `HeadersSafe` with the literal header names: the form `decide` can evaluate -/
+def HeadersSafeL (parts : List Part) : Prop :=
+  ∀ p ∈ parts, SafeFor crlfcrlf p.block ∧ LinesSafe p.lines ∧ okHeadersL p = true
+instance (parts : List Part) : Decidable (HeadersSafeL parts) := by unfold HeadersSafeL; exact inferInstance
+theorem headersSafe_iff_L (parts : List Part) : HeadersSafe parts ↔ HeadersSafeL parts := by
+  unfold HeadersSafe HeadersSafeL
+  simp only [okHeaders_eq_L]
+
+/-! ### a concrete non-trivial form meets the side conditions of `parse_encode`
+
+    boundary `xy`, preamble `pre CRLF`, epilogue `epi`, final CRLF; part 0 has the lines
+    `Content-Disposition: form-data; name="a"` and `X-Other: 1` and the content `CRLF--x` (a near miss of the delimiter);
+    part 1 has `content-type: text/plain` and empty content -/
+def exParts : List Part :=
+  [⟨[[67, 111, 110, 116, 101, 110, 116, 45, 68, 105, 115, 112, 111, 115, 105, 116, 105, 111, 110, 58, 32, 102, 111, 114, 109, 45, 100, 97, 116, 97, 59, 32, 110, 97, 109, 101, 61, 34, 97, 34], [88, 45, 79, 116, 104, 101, 114, 58, 32, 49]], [13, 10, 45, 45, 120]⟩,
+   ⟨[[99, 111, 110, 116, 101, 110, 116, 45, 116, 121, 112, 101, 58, 32, 116, 101, 120, 116, 47, 112, 108, 97, 105, 110]], []⟩]
+def exB : Bytes := [120, 121]
+def exPre : Bytes := [112, 114, 101, 13, 10]
+def exEpi : Bytes := [101, 112, 105]
+
+example : BoundarySafe exParts exB exPre := by decide
+example : HeadersSafe exParts := by rw [headersSafe_iff_L]; decide
+example : WithinLimits exParts ⟨52, 2⟩ := by decide
+
+instance exceptDecEq {ε α : Type} [DecidableEq ε] [DecidableEq α] : DecidableEq (Except ε α)
+  | .ok a, .ok b => if h : a = b then isTrue (by rw [h]) else isFalse (by intro h'; cases h'; exact h rfl)
+  | .error a, .error b => if h : a = b then isTrue (by rw [h]) else isFalse (by intro h'; cases h'; exact h rfl)
+  | .ok _, .error _ => isFalse (by intro h; cases h)
+  | .error _, .ok _ => isFalse (by intro h; cases h)
+
+theorem headersOf_eq_L (p : Part) : headersOf p = parseHeadersL p.lines [] := parseHeaders_eq_L _ _
+
+/-- what `parse_encode` then says about it -/
+example : parseFlat (encodeForm exParts exB exPre exEpi true) exB ⟨52, 2⟩
+    = .ok [([([99, 111, 110, 116, 101, 110, 116, 45, 100, 105, 115, 112, 111, 115, 105, 116, 105, 111, 110], [102, 111, 114, 109, 45, 100, 97, 116, 97, 59, 32, 110, 97, 109, 101, 61, 34, 97, 34])], [13, 10, 45, 45, 120]), ([([99, 111, 110, 116, 101, 110, 116, 45, 116, 121, 112, 101], [116, 101, 120, 116, 47, 112, 108, 97, 105, 110])], [])] := by
+  rw [parse_encode exParts exB exPre exEpi true ⟨52, 2⟩ (by decide) (by rw [headersSafe_iff_L]; decide) (by decide)]
+  simp only [exParts, List.map, Part.parsed, Part.headers, headersOf_eq_L]
+  decide
+
+/-! ### every side condition of `parse_encode` is needed (decided witnesses: all the other conditions hold, the result differs) -/
+
+/-- a content that contains `CRLF--boundary`: the part is cut short and the rest is taken for a part with broken headers -/
+example :
+    let parts : List Part := [⟨[], [13, 10, 45, 45, 98]⟩]
+    ¬ BoundarySafe parts [98] [] ∧ SafeFor (dashes ++ [98]) [] ∧ HeadersSafe parts ∧ WithinLimits parts noLimits ∧
+    parseAll (encodeForm parts [98] [] [] false) [98] noLimits = ([([], [])], .error .incompleteHeaders) := by
+  refine ⟨by decide, by decide, ?_, by decide, by decide⟩
+  rw [headersSafe_iff_L]; decide
+
+/-- a preamble that contains the dash-boundary (here followed by `--`): the form seems to end before its first part -/
+example :
+    let parts : List Part := [⟨[], [120]⟩]
+    ¬ BoundarySafe parts [98] [45, 45, 98, 45, 45] ∧ (∀ p ∈ parts, SafeFor (crlf ++ (dashes ++ [98])) p.content) ∧ HeadersSafe parts ∧
+    WithinLimits parts noLimits ∧ parseAll (encodeForm parts [98] [45, 45, 98, 45, 45] [] false) [98] noLimits = ([], .finished) := by
+  refine ⟨by decide, by decide, ?_, by decide, by decide⟩
+  rw [headersSafe_iff_L]; decide
+
+/-- a header block that contains a blank line (two empty header lines: every line is CRLF-free, the block is not safe): the
+    headers end early and the rest of the block is taken for content -/
+example :
+    let parts : List Part := [⟨[[], []], [120]⟩]
+    BoundarySafe parts [98] [] ∧ ¬ SafeFor crlfcrlf (Part.block ⟨[[], []], [120]⟩) ∧ LinesSafe [[], []] ∧ WithinLimits parts noLimits ∧
+    parseAll (encodeForm parts [98] [] [] false) [98] noLimits = ([([], [13, 10, 120])], .finished) ∧
+    parts.map Part.parsed = [([], [120])] := by
+  refine ⟨by decide, by decide, by decide, by decide, by decide, by decide⟩
+
+/-- a header "line" that contains CRLF: the parser sees two lines, here a `content-type` the sender did not write as a line -/
+example :
+    let p : Part := ⟨[[120, 13, 10, 99, 111, 110, 116, 101, 110, 116, 45, 116, 121, 112, 101, 58, 32, 97]], []⟩
+    ¬ LinesSafe p.lines ∧ BoundarySafe [p] [98] [] ∧ SafeFor crlfcrlf p.block ∧
+    parseHeaders (split p.block crlf) [] = .ok [([99, 111, 110, 116, 101, 110, 116, 45, 116, 121, 112, 101], [97])] ∧ headersOf p = .ok [] := by
+  refine ⟨by decide, by decide, by decide, ?_, ?_⟩
+  · rw [parseHeaders_eq_L]; decide
+  · rw [headersOf_eq_L]; decide
+
+def cteParts : List Part := [⟨[[67, 111, 110, 116, 101, 110, 116, 45, 84, 114, 97, 110, 115, 102, 101, 114, 45, 69, 110, 99, 111, 100, 105, 110, 103, 58, 32, 98, 97, 115, 101, 54, 52]], [120]⟩]
+
+/-- a part that asks for a transfer encoding: 'the deprecated Content-Transfer-Encoding header field is unsupported' -/
+example :
+    BoundarySafe cteParts [98] [] ∧ BlocksSafe cteParts ∧ (∀ p ∈ cteParts, LinesSafe p.lines) ∧ ¬ HeadersSafe cteParts ∧
+    parseAll (encodeForm cteParts [98] [] [] false) [98] noLimits = ([], .error .cte) := by
+  refine ⟨by decide, by decide, by decide, by rw [headersSafe_iff_L]; decide, ?_⟩
+  rw [parseAll_encode _ _ _ _ _ _ (by decide) (by decide)]
+  simp only [cteParts, expect, parseHeaders_block ⟨[[67, 111, 110, 116, 101, 110, 116, 45, 84, 114, 97, 110, 115, 102, 101, 114, 45, 69, 110, 99, 111, 100, 105, 110, 103, 58, 32, 98, 97, 115, 101, 54, 52]], [120]⟩ (by decide), headersOf_eq_L]
+  decide
+
+/-- the limits: a 1-byte header block passes `max_body_part_headers_size = 1` and fails `0`; two parts pass
+    `max_body_part_count = 2` (and `0` = unlimited) and the second one fails `1` -/
+example :
+    let parts : List Part := [⟨[[120]], [120]⟩, ⟨[], []⟩]
+    BoundarySafe parts [98] [] ∧ HeadersSafe parts ∧
+    parseAll (encodeForm parts [98] [] [] true) [98] ⟨1, 2⟩ = ([([], [120]), ([], [])], .finished) ∧
+    parseAll (encodeForm parts [98] [] [] true) [98] ⟨1, 0⟩ = ([([], [120]), ([], [])], .finished) ∧
+    parseAll (encodeForm parts [98] [] [] true) [98] ⟨0, 2⟩ = ([], .error .incompleteHeaders) ∧
+    parseAll (encodeForm parts [98] [] [] true) [98] ⟨1, 1⟩ = ([([], [120])], .error .tooManyParts) := by
+  refine ⟨by decide, by rw [headersSafe_iff_L]; decide, by decide, by decide, by decide, by decide⟩
 
 end Mf
